@@ -349,7 +349,8 @@ def oracle(sc, obs):
                    and f.request is not None and f.request.data.method.upper() != b"CONNECT"]
         # request-method context: what P reads in the client's own stream; where P refuses the client's syntax
         # (bare LF etc.) fall back to the methods mitmproxy recorded (the policy never edits HEAD-ness)
-        methods = [m.method for m in cp.msgs]
+        # (a bare CR next to the method token is whitespace to a recipient that replaces it by SP, RFC 9112 2.2: `HEAD\r `)
+        methods = [m.method.strip(b"\r\t ") for m in cp.msgs]
         methods += [f.request.data.method for f in myflows[len(methods):]]
         if cp.status != "ok":
             # a message P cannot read to its end (refused, or its announced body never came) and mitmproxy refuses:
@@ -363,7 +364,7 @@ def oracle(sc, obs):
                     methods.append(tok[0].strip())
         rp = P.parse_responses(c.received, methods + [b"GET"] * 4, c.proxy_closed)
         if cp.status != "ok" and rp.status != "ok" and len(rp.msgs) >= len(methods) and \
-                re.search(rb"HEAD [^\r\n]* HTTP/", c.sent):
+                re.search(rb"HEAD[ \t]+\S", c.sent):
             # P stopped earlier than mitmproxy did (bare LF etc.), so the method of the message that was finally refused
             # is unknown to the oracle; if the client did send a HEAD request line, a head-only error answer is fine
             rp2 = P.parse_responses(c.received, methods + [b"HEAD"] * 4, c.proxy_closed)
@@ -454,8 +455,11 @@ def oracle(sc, obs):
     # ---- 5: framing-ambiguous origin replies must not be relayed -------------------------------------
     relayed = set()
     for c in obs.clients:
-        for t in re.findall(rb"\r\nX-R(\d+): w", c.received):
-            relayed.add(int(t))
+        for t, w in re.findall(rb"\r\nX-R(\d+): w(\d+)", c.received):
+            # name and value of a marker carry the same index; a byte-level mutation of one of them (X-R2: w0) must not
+            # attribute the message to another scripted reply
+            if t == w:
+                relayed.add(int(t))
     for k, rspec in sc["origins"]["*"]["replies"].items():
         data = H.B(rspec["data"])
         # interim (1xx) responses that mitmproxy swallows never reach the client: a defect inside them is not relayed
